@@ -29,6 +29,7 @@ pub mod polling {
         //    and returned Ok"), produced only by the postconditions below.
         pub uninterp spec fn may_add(&self, fd: int, ev: Event, mode: PollMode) -> bool;
         pub uninterp spec fn may_modify(&self, fd: int, ev: Event, mode: PollMode) -> bool;
+        pub uninterp spec fn may_delete(&self, fd: int) -> bool;
         pub uninterp spec fn w_added(&self, fd: int, ev: Event, mode: PollMode) -> bool;
         pub uninterp spec fn w_modified(&self, fd: int, ev: Event, mode: PollMode) -> bool;
         pub uninterp spec fn w_deleted(&self, fd: int) -> bool;
